@@ -236,7 +236,23 @@ func c18Mutate(t *rt.Tape, data []byte) []byte {
 		if len(out) > 0 {
 			p = t.Draw(len(out)+1, "mut.pos")
 		}
-		switch t.Draw(6, "mut.op") {
+		switch t.Draw(7, "mut.op") {
+		case 6: // repeat a field line with another spelling of its name and another value
+			ls := strings.SplitAfter(string(out), "\n")
+			li := t.Draw(len(ls), "mut.line")
+			if i := strings.Index(ls[li], ":"); i > 0 && ls[li][0] != ' ' && ls[li][0] != '#' {
+				name := ls[li][:i]
+				alt := strings.ToUpper(name)
+				if t.Bool(1, 2, "mut.case") {
+					alt = strings.ToLower(name)
+				}
+				extra := alt + ": other-" + strings.TrimSpace(ls[li][i+1:]) + "\n"
+				if t.Bool(1, 2, "mut.both") {
+					ls[li] = strings.ToLower(name) + ls[li][i:]
+				}
+				ls = append(ls[:li+1], append([]string{extra}, ls[li+1:]...)...)
+				out = []byte(strings.Join(ls, ""))
+			}
 		case 0: // insert token
 			tok := tokens[t.Draw(len(tokens), "mut.tok")]
 			out = append(out[:p], append([]byte(tok), out[p:]...)...)
@@ -329,6 +345,9 @@ func c18Solo(r *rt.Run, c c18Call, name string) c18Result {
 
 func runC18(r *rt.Run, tier string) {
 	t := r.T
+	// any map iteration inside the parsers runs in a tape-chosen order: a result
+	// that depends on it differs between the solo, interleaved and repeated call
+	r.EnableMapOrder(true)
 	calls := c18GenCalls(t, r)
 	// buggified sites: a random subset of the instrumented loop heads / function entries yields
 	sites := map[int]bool{}
